@@ -37,6 +37,13 @@ class SymHandler(Handler):
         return self.decide(node, self)
 
     def value(self, node):
+        if isinstance(node, ast.IfExp):
+            t = self.decide(node.test, self)
+            if t is None and isinstance(node.test, ast.UnaryOp) and isinstance(node.test.op, ast.Not):
+                t = self.decide(node.test.operand, self)
+                t = None if t is None else not t
+            if t is not None:
+                return self.value(node.body if t else node.orelse)
         if isinstance(node, ast.Constant) and node.value is None:
             return NONE
         if isinstance(node, ast.Name) and self.env.get(node.id) is NONE:
